@@ -9,6 +9,7 @@ import (
 
 	"golang.org/x/tools/go/ssa"
 
+	"verifcheck/internal/core"
 	"verifcheck/internal/flow"
 	"verifcheck/internal/locks"
 	"verifcheck/internal/ssaq"
@@ -17,7 +18,7 @@ import (
 func init() {
 	Register(&Spec{
 		ID:          "C09",
-		Explanation: "Decides structural necessary conditions of clean termination: (R1/R2) every function body in package rpc returns with the lock state it was entered with on every CFG path, except the five documented lock-transfer functions whose inferred summaries must equal the documented ones; (R3) every function with a 'caller must (not) be holding' comment is entered in exactly that state from every call path; (R4) no application-provided code, blocking operation or re-acquisition happens under Conn.mu (transitively through static calls), transport operations run under the sender lock and without Conn.mu; (R5) shutdown shape and task-group pairing; (R6) torn-write latch: single writer, checked before I/O, and the latch's guard is satisfiable by a value that can actually arrive; (R8) wake-ups happen on every path, at most once. Does NOT decide bounded time, goroutine exit under real schedulers or behaviour of user transports.",
+		Explanation: "Decides structural necessary conditions of clean termination: (R1/R2) every function body in package rpc returns with the lock state it was entered with on every CFG path, except the five documented lock-transfer functions whose inferred summaries must equal the documented ones; (R3) every function with a 'caller must (not) be holding' comment is entered in exactly that state from every call path; (R4) no application-provided code, blocking operation or re-acquisition happens under Conn.mu (transitively through static calls), transport operations run under the sender lock and without Conn.mu; (R5) shutdown shape and task-group pairing; (R6) torn-write latch: single writer, checked before I/O, and the latch's guard is satisfiable by a value that can actually arrive; (R8) wake-ups happen on every path, at most once. (R9) answer.sendReturn returns an error only where finishReceived is established; no tasks.Done() is reachable after a call of shutdown in the same function (shutdown waits for the task group). Does NOT decide bounded time, goroutine exit under real schedulers or behaviour of user transports.",
 		Run:         runC09,
 	})
 }
@@ -31,6 +32,7 @@ func runC09(ctx *Ctx) {
 	ruleTransportOps(ctx, "C09-R4c")
 	ruleShutdownShape(ctx, "C09-R5")
 	ruleTaskPairing(ctx, "C09-R5t")
+	ruleSendReturnErrorOnlyAfterFinish(ctx, "C09-R9")
 	ruleLatch(ctx, "C09-R6")
 	ruleLatchLive(ctx, "C09-R6c")
 	ruleWakeups(ctx, "C09-R8")
@@ -224,7 +226,16 @@ func ruleTaskPairing(ctx *Ctx, rule string) {
 						return false
 					}
 					k, ok := kv.Key.(*ast.Ident)
-					return ok && k.Name == "Returner" && types.ExprString(kv.Value) == "ans"
+					if !ok || k.Name != "Returner" {
+						return false
+					}
+					// the value handed over is the answer (a *rpc.answer), whatever the local is called
+					pt, isPtr := info.TypeOf(kv.Value).(*types.Pointer)
+					if !isPtr {
+						return false
+					}
+					nt, isNamed := pt.Elem().(*types.Named)
+					return isNamed && core.TypeRefName(nt.Obj()) == "answer"
 				}
 				pathCheck(ctx, a, rule, key, u, p.After(), node.Pos(), ansRet, nil, "a Recv carrying Returner: ans (whose Return calls tasks.Done, see the answer.Return obligation)")
 			default:
@@ -269,6 +280,23 @@ func ruleTaskPairing(ctx *Ctx, rule string) {
 		}
 		isPWait := func(n ast.Node) bool { return isMethodCallOnField(info, n, "sync.(*WaitGroup).Wait", pcalls) }
 		pathCheck(ctx, a, rule, "answer.Return | pcalls.Wait on every path", u, u.Entry(), u.Pos, isPWait, nil, "ans.pcalls.Wait() (Returner contract: wait for pipelined deliveries)")
+	}
+	// (iii-b) shutdown waits for the task group (tasks.Wait): a function that still
+	// holds a task must have given it back (tasks.Done) BEFORE it calls shutdown,
+	// otherwise shutdown waits for its own caller.
+	for _, u := range a.UnitsSorted() {
+		if !strings.HasPrefix(u.Name, "rpc.") {
+			continue
+		}
+		info := u.Pkg.TypesInfo
+		isShutdown := func(m ast.Node) bool { return isCallNamed(info, m, "rpc.(*Conn).shutdown") }
+		k := 0
+		for _, p := range a.Eng.FindThrough(u, isShutdown) {
+			k++
+			noPathCheck(ctx, a, rule, fmt.Sprintf("%s | shutdown #%d is not called while holding a task", u.Name, k), u, p.After(), p.B.Nodes[p.I].Pos(), isDone(info), nil,
+				"tasks.Done() is reachable after the call of shutdown in the same function: shutdown blocks in tasks.Wait until every task is done, so it waits for the goroutine that is calling it (no Abort is sent, Done() never closes, Close hangs)",
+				"no tasks.Done() follows the call of shutdown: the task was given back before")
+		}
 	}
 	// (iv) pcalls.Add / Done in handleCall
 	if u := mustUnit(ctx, a, rule, "rpc.(*Conn).handleCall"); u != nil {
@@ -359,7 +387,7 @@ func ruleLatch(ctx *Ctx, rule string) {
 			if isCallNamed(info, n, "rpc.(*errorValue).Set") {
 				sets++
 				key := u.Name + " | writes transport.err"
-				if u.Parent != nil && u.Parent.Name == "rpc.(*transport).NewMessage" {
+				if (u.Parent != nil && u.Parent.Name == "rpc.(*transport).NewMessage") || onlyReachedFrom(ctx, u.Name, "rpc.(*transport).NewMessage") {
 					r.Ok(rule, key, ctx.Prog.Rel(n.Pos()), "the send closure is the only writer of the latch")
 				} else {
 					r.Violation(rule, key, ctx.Prog.Rel(n.Pos()), "transport.err is set outside the send closure of transport.NewMessage")
@@ -384,6 +412,12 @@ func ruleLatch(ctx *Ctx, rule string) {
 		}
 		info := u.Pkg.TypesInfo
 		isIO := func(n ast.Node) bool { return isCallNamed(info, n, s.io) }
+		// the I/O may have been moved into a helper that did not exist on the
+		// reference tree: the guard is then looked for there
+		if h := unitHolding(a, u, isIO); h != nil && h != u {
+			u = h
+			info = u.Pkg.TypesInfo
+		}
 		// The guard idiom: if err := s.err.Load(); err != nil { return ... }
 		var guards []*ast.IfStmt
 		ast.Inspect(u.Body, func(n ast.Node) bool {
